@@ -42,6 +42,10 @@ def cases(tier):
     )
 
 
+def enumerate_cases(tier):
+    yield from c01.css_name_rows(["glyf", "glyf_colr_0", "cff_colr_0"])
+
+
 shrink = c01.shrink
 sample_repr = c01.sample_repr
 
